@@ -225,6 +225,8 @@ func Run(bodies []func(), opt Options) *Execution {
 		if x.atPoint != nil && x.InvariantFailure == "" {
 			if f := x.atPoint(x); f != "" {
 				x.InvariantFailure = fmt.Sprintf("at decision point %d: %s", step, f)
+				// abort: do not run any thread in a state that violates the invariant
+				break
 			}
 		}
 		if opt.StateKey {
@@ -308,7 +310,17 @@ func trimStack(s string) string {
 	lines := strings.Split(s, "\n")
 	var keep []string
 	for _, l := range lines {
+		if strings.HasPrefix(l, "\t") || strings.HasPrefix(l, "goroutine") {
+			continue // file:line +0xoff lines carry addresses
+		}
 		if strings.Contains(l, "goom") || strings.Contains(l, "verifh") {
+			// function name only: arguments are addresses and differ between runs
+			if i := strings.LastIndex(l, "("); i > 0 {
+				l = l[:i]
+			}
+			if strings.Contains(l, "sched.Run") || strings.Contains(l, "vk.Try") {
+				continue
+			}
 			keep = append(keep, strings.TrimSpace(l))
 		}
 		if len(keep) >= 12 {
